@@ -10,6 +10,7 @@ import (
 	"os"
 	"os/exec"
 	"path/filepath"
+	"strings"
 	"time"
 
 	abci "github.com/tendermint/tendermint/abci/types"
@@ -43,6 +44,23 @@ func (cs *checkerSet) c07Tx(c *TxCtx) *core.Violation {
 		}
 	}
 	cs.txHashes = append(cs.txHashes, resHash(c.All[0]))
+	if c.OK {
+		// an escrow account that ends while it pays two or more different payees (bulk payout)
+		for _, k := range keysOf(c.Before.Accounts) {
+			if c.Before.Accounts[k].State == c.After.Accounts[k].State {
+				continue
+			}
+			owners := map[string]bool{}
+			for pk, p := range c.Before.Payments {
+				if strings.HasPrefix(pk, k+"/") && p.State != c.After.Payments[pk].State {
+					owners[p.Owner] = true
+				}
+			}
+			if len(owners) >= 2 {
+				r.Count("probe:account-ends-paying-2+-payees")
+			}
+		}
+	}
 	if m, ok := c.Op.Msg.(*ptypes.MsgUpdateProvider); ok {
 		n := 0
 		for _, l := range c.Before.Leases {
